@@ -148,7 +148,21 @@ const (
 )
 
 // Run replays the case; returns the first divergence (nil if none).
-func Run(c *Case, cfg Config, stats *Stats) (*Divergence, Outcome) {
+func Run(c *Case, cfg Config, stats *Stats) (dv *Divergence, out Outcome) {
+	// the calls into the library are made under recover (safeCall); a panic that escapes nevertheless happened while the
+	// library's tensors were being observed (shape, strides, masks, iterators): it is reported, it does not end the run
+	defer func() {
+		if p := recover(); p != nil {
+			stats.Diverged++
+			dv = &Divergence{Case: c.ID, Fam: c.Fam, DT: cfg.D.Name, Pal: cfg.Pal.Name, Cfg: cfg.Name, Step: len(c.Steps) - 1,
+				Op: "observe", Kind: "panic", Detail: fmt.Sprintf("panic while observing the tensors: %v", p), Path: c.PathString()}
+			out = Diverged
+		}
+	}()
+	return runCounted(c, cfg, stats)
+}
+
+func runCounted(c *Case, cfg Config, stats *Stats) (*Divergence, Outcome) {
 	w, d, oc := run(c, cfg, stats)
 	if oc == Passed && c.L2 != nil {
 		for h, l := range c.L2 {
@@ -419,7 +433,17 @@ func shapeAllowed(got, full []int, drop []int) bool {
 }
 
 // ElemsOf reads every element of t through At in row-major order of logical coordinates.
-func ElemsOf(t *tensor.Dense) ([]interface{}, error) {
+func ElemsOf(t *tensor.Dense) (out []interface{}, err error) {
+	// a panic of the library while a tensor is merely read is an observation of the code (corrupt metadata), not a crash of the harness
+	defer func() {
+		if p := recover(); p != nil {
+			out, err = nil, fmt.Errorf("panic while reading the tensor (shape %v strides %v): %v", t.Shape(), t.Strides(), p)
+		}
+	}()
+	return elemsOf(t)
+}
+
+func elemsOf(t *tensor.Dense) ([]interface{}, error) {
 	shape := []int(t.Shape())
 	n := prod(shape)
 	out := make([]interface{}, n)
